@@ -365,6 +365,11 @@ def run(c):
     while len(cases) < n:
         cases.append(gen_case(c.rng, len(cases), st))
     c.cov["generator"] = dict(sorted(st.items()))
+    # the scratch workspace and its cargo target directory are shared state: serialise concurrent runs
+    import fcntl
+    os.makedirs(BUILD, exist_ok=True)
+    lockf = open(os.path.join(BUILD, "macrodeps.lock"), "w")
+    fcntl.flock(lockf, fcntl.LOCK_EX)
     t0 = time.time()
     write_ws(cases, witpkg)
     trace = os.path.join(BUILD, "macrodeps-strace.txt")
